@@ -4,6 +4,7 @@
 # observation vectors compared; monitors restating the theorems of coq/Props/C16.v on the implementation's own run.
 import vlib
 from props import group_lib as GL
+from props import group_wire_lib as WL
 from props.group_lib import (E_CFAIL, E_CSHUT, E_HBREPLY, E_JOIN, E_START, E_STOP, E_SYNC, E_TICK, K_ILLGEN, K_INVGROUP, K_TIMEOUT, K_UNKMEMBER,
                              O_API, O_HB, O_JOIN, O_LEAVE, O_LOOKUP, O_PARTS, O_SHUTC, O_STARTC, O_STARTD, O_STOPC, O_SYNC)
 
@@ -41,7 +42,7 @@ def monitor(kind, steps):
             if o[0] == O_STARTC:
                 facts["startc_checked"] += 1
                 _, cid, t, p, g, m, committed = o
-                if not (c == E_SYNC and ev[2] == 0 and st["delivered"]):
+                if not (c == E_SYNC and (ev[2] == 0 or 10 <= ev[2] < 100) and st["delivered"]):
                     bad.append((i, "C16_commit_identity: consumer %d created by an event that is not a successful SyncGroup reply" % cid))
                 elif (t, p) not in ev[3]:
                     bad.append((i, "C16_commit_identity: consumer %d for (t%d,%d) which is not in the assignment %r" % (cid, t, p, ev[3])))
@@ -51,7 +52,7 @@ def monitor(kind, steps):
                     bad.append((i, "C16_start_committed: consumer %d not started from the group's committed offset" % cid))
                 if stop_called_before or leaving:
                     bad.append((i, "C16_after_stop_only_leave: consumer %d created after stop()" % cid))
-        if c == E_SYNC and ev[2] == 0 and st["delivered"] and any(o[0] == O_STARTC for o in out):
+        if c == E_SYNC and (ev[2] == 0 or 10 <= ev[2] < 100) and st["delivered"] and any(o[0] == O_STARTC for o in out):
             cur_asg = set(ev[3])
         # --- C16_consumers_subset_assignment: registered consumers carry the current ids and an assigned partition
         for cid, g, m, topic, part in st["consumers"]:
@@ -121,7 +122,7 @@ def monitor(kind, steps):
                 rn_est = True
                 if kk in (K_UNKMEMBER, K_INVGROUP) and not (user_stop or leaving) and obs[9] != 0:
                     bad.append((i, "C16_evicted_stopped_before_rejoin: %s and the member keeps its member id %d" % (GL.KIND_NAMES[kk], obs[9])))
-            if c == E_SYNC and ev[2] == 0 and any(o[0] == GL.O_SCHED and o[1] == 1 for o in out):
+            if c == E_SYNC and (ev[2] == 0 or 10 <= ev[2] < 100) and any(o[0] == GL.O_SCHED and o[1] == 1 for o in out):
                 rn_est = False
         if any(o[0] in (O_LEAVE, O_STARTD) for o in out):
             leaving = True
@@ -133,11 +134,14 @@ def run(ck):
     ck.build([MODEL])
     ck.props()
     GL.check_histories(ck, monitor, TIED)
+    # clause "each committing with that generation and member id", on the wire: real Consumer + real KafkaClient request encoders under
+    # the real ConsumerGroup; every OffsetCommit frame parsed independently of afkak's codec
+    WL.run_wire_stream(ck, 600 if ck.tier == "thorough" else 45)
     if ck.tier == "thorough":
         ck.coqchk(["AV.Props.C16"])
     ck.assumptions += [
         "coq/Model/Group.v is a hand-written transcription of afkak/_group.py:50-538,673-901 (tie = this run's trace + observation correspondence, not a proof)",
-        "the partition Consumer is represented by its contract: it commits with the generation / member id it was constructed with (afkak/consumer.py:714-719, property C03's model) - the stub records those constructor arguments; that it starts from the committed offset is the constant OFFSET_COMMITTED passed to start(), compared in the trace",
+        "in the histories the partition Consumer is represented by its contract (stub recording the constructor arguments commit_generation_id / commit_consumer_id and the OFFSET_COMMITTED argument of start()); in addition a stream of scripted lives runs the REAL Consumer and the REAL KafkaClient request encoders under the group and checks generation and member id in every OffsetCommit frame (parsed with struct, not with afkak's codec)",
         "the coordinator (broker side: generation counter, rejection of stale commits) is the environment: every reply and error code it can send is an event",
         "Twisted inlineCallbacks / LoopingCall / DeferredList semantics as summarised at the top of Model/Group.v (exercised, not verified)",
         "two observations outside the property, by decision not findings: a second ConsumerGroup.stop() while the first waits for its consumers completes early; start() after a completed stop() is inert",
@@ -146,4 +150,13 @@ def run(ck):
 
 
 def replay(rp):
+    if rp.get("replay_op") == "wire":
+        import random
+        rnd = random.Random(rp["seed"] + 1616)
+        for i in range(rp["scenario_index"] + 1):
+            bad, narrative = WL.scenario(rnd, i % 3 == 2)
+        for e in narrative:
+            print(e)
+        print("monitor:", bad or "no failure")
+        return 1 if bad else 0
     return GL.replay_history(rp, monitor)
